@@ -149,6 +149,59 @@ theorem applyAdd_wf (K : List Bytes) (db : DB) (n : Nat) (kvs : List (Bytes × B
     · exact hne e h
     · subst h; exact hv kv hkv
 
+/-- every version chain (versions 0, 1, 2, … added in order; removing from the top gives a shorter
+chain by `delTop_restores`) yields a well-formed store whose records all come from writes of the
+chain: the hypotheses `WF` / `NoEmpty` of the theorems above are met by every history. -/
+theorem history_wf (K : List Bytes) (vs : List (List (Bytes × Bytes)))
+    (hk : ∀ kvs ∈ vs, ∀ kv ∈ kvs, kv.1 ∈ K) (hlen : vs.length < 2 ^ 63) :
+    WF K (dataOf vs) ∧ Below vs.length (dataOf vs) ∧
+      ((∀ kvs ∈ vs, ∀ kv ∈ kvs, kv.2 ≠ []) → NoEmpty (dataOf vs)) ∧
+      ∀ e ∈ dataOf vs, ∃ i kvs kv, vs[i]? = some kvs ∧ kv ∈ kvs ∧ e = (getKey kv.1 i, kv.2) := by
+  have gen : ∀ (rest : List (List (Bytes × Bytes))) (db : DB) (n : Nat),
+      WF K db → Below n db → n + rest.length < 2 ^ 63 → (∀ kvs ∈ rest, ∀ kv ∈ kvs, kv.1 ∈ K) →
+      WF K (dataFrom db n rest) ∧ Below (n + rest.length) (dataFrom db n rest) ∧
+      ((NoEmpty db ∧ ∀ kvs ∈ rest, ∀ kv ∈ kvs, kv.2 ≠ []) → NoEmpty (dataFrom db n rest)) ∧
+      ∀ e ∈ dataFrom db n rest, e ∈ db ∨
+        ∃ i kvs kv, rest[i]? = some kvs ∧ kv ∈ kvs ∧ e = (getKey kv.1 (n + i), kv.2) := by
+    intro rest
+    induction rest with
+    | nil =>
+      intro db n hwf hb _ _
+      exact ⟨hwf, hb, fun h => h.1, fun e he => Or.inl he⟩
+    | cons kvs rest ih =>
+      intro db n hwf hb hn hk'
+      have hstep := applyAdd_wf K db n kvs hwf hb (by simp at hn; omega) (hk' kvs List.mem_cons_self)
+      have hrec := ih (applyAdd db n kvs) (n + 1) hstep.1 hstep.2.1 (by simp at hn ⊢; omega)
+        (fun kvs' h => hk' kvs' (List.mem_cons_of_mem _ h))
+      simp only [dataFrom]
+      refine ⟨hrec.1, ?_, ?_, ?_⟩
+      · have := hrec.2.1
+        simp only [List.length_cons]
+        rw [show n + (rest.length + 1) = n + 1 + rest.length by omega]
+        exact this
+      · rintro ⟨hne, hv⟩
+        exact hrec.2.2.1 ⟨hstep.2.2 hne (hv kvs List.mem_cons_self),
+          fun kvs' h => hv kvs' (List.mem_cons_of_mem _ h)⟩
+      · intro e he
+        rcases hrec.2.2.2 e he with h | ⟨i, kvs', kv, h1, h2, h3⟩
+        · rcases mem_applyAdd db n kvs e h with h' | ⟨kv, hkv, h'⟩
+          · left; exact h'
+          · right; exact ⟨0, kvs, kv, rfl, hkv, by simpa using h'⟩
+        · right
+          refine ⟨i + 1, kvs', kv, by simpa using h1, h2, ?_⟩
+          rw [h3, show n + 1 + i = n + (i + 1) by omega]
+  have h := gen vs [] 0 ⟨by simp [Sorted], fun e he => by cases he⟩ (fun e he => by cases he)
+    (by omega) hk
+  have hb : Below vs.length (dataOf vs) := by
+    have := h.2.1
+    simp only [Nat.zero_add] at this
+    exact this
+  refine ⟨h.1, hb, fun hv => h.2.2.1 ⟨(fun e he => by cases he), hv⟩, ?_⟩
+  intro e he
+  rcases h.2.2.2 e he with h' | ⟨i, kvs, kv, h1, h2, h3⟩
+  · cases h'
+  · exact ⟨i, kvs, kv, h1, h2, by simpa using h3⟩
+
 /-- versions in order ⇒ the next version is fresh. -/
 theorem fresh_of_below (db : DB) (n : Nat) (hn : n < 2 ^ 63) (hb : Below n db) : Fresh n db := by
   intro e he k hkey
